@@ -110,6 +110,14 @@ theorem refresh_never_widens (cfg : Cfg) (s : St) (client : Str) (rt : Nat) (sc 
                 simpa [scopeBad] using hbad
 
 
+/-- client-credentials and password grants: the token's scope is within what the client's record lists,
+    and a client without a list gets no scope at all -/
+theorem configured_scope_bounded (a : Option (List Str)) :
+    (∀ l, a = some l → Sub (configuredScope a) l) ∧ (a = none → configuredScope a = []) := by
+  constructor
+  · intro l h; subst h; intro x hx; simpa [configuredScope] using hx
+  · intro h; subst h; rfl
+
 /-! ### the history invariant -/
 
 /-- **scope never escalates — for every history.** After ANY sequence of authorizations, code
